@@ -170,7 +170,8 @@ class World:
         else:
             types = self.FAULT_TYPES + ((Fatal,) if allow_base else ())
         cls = types[kind % len(types)]
-        exc = cls(tag)
+        # the arguments of an exception are anything: a string, a number and a string (like OSError), nothing at all
+        exc = cls(tag) if (kind // len(types)) % 3 == 0 or cls is Fatal else cls(7, tag) if (kind // len(types)) % 3 == 1 else cls()
         self.faults.append(exc)
         return exc
 
